@@ -15,7 +15,7 @@ CHECKS['C33'] = dict(
     exec_timeout=45,
     shrink_ints=['n', 'limit'],
     expected_probes=['iterator_stepped_after_cache_cleared', 'gen_crosses_segment_boundary',
-                     'size_changed_with_warm_cache', 'bounded_iterator_exhausted'],
+                     'size_changed_with_warm_cache', 'bounded_iterator_exhausted', 'iterator_copy_assigned', 'allocation_failed_inside_generate_primes', 'allocation_failed_inside_next_prime'],
     rule=('one run = a seeded interleaving (4-64 steps) of 1-5 iterator clients, generate_primes callers, '
           'clear/set_clear/set_sieve_size and library clients (primepi, prime_factors, '
           'prime_factor_multiplicities, factor_trial_division, mobius) on the process-global sieve, checked '
@@ -46,7 +46,7 @@ CHECKS['C25'] = dict(
     expected_probes=['set_insert_front', 'set_insert_middle', 'set_insert_back', 'set_overwrite', 'set_delete',
                      'set_delete_last_in_row', 'set_zero_on_absent', 'set_insert_empty_row', 'coo_with_duplicates',
                      'binop_entry_cancelled', 'matmat_entry_cancelled', 'matmat_B_wider_than_A',
-                     'unary_op_on_non_square', 'oversized_entries_replaced'],
+                     'unary_op_on_non_square', 'oversized_entries_replaced', 'result_object_reused'],
     rule=('one run = a seeded history (10-170 steps) over a pool of 1-4 CSR matrices (<=8x8), each in lock step with a '
           'dense reference: set/get, from_coo with duplicate and cancelling coordinates, transpose (both forms), '
           'conjugate, conjugate_transpose, csr_binop_csr_canonical add/sub/mul, elementwise_mul_matrix, two-pass '
@@ -74,7 +74,7 @@ CHECKS['C13'] = dict(
     shrink_keys=['ops', 'outputs', 'pool'],
     expected_probes=['reinit', 'reinit_cse_on_to_off', 'reinit_cse_off_to_on', 'reinit_fewer_outputs',
                      'reinit_more_outputs', 'failed_init', 'reinit_after_failed_init_or_move', 'moved',
-                     'cse_on_off_compared', 'compared_with_reference_evaluation', 'input_named_like_cse_temporary'],
+                     'cse_on_off_compared', 'compared_with_reference_evaluation', 'input_named_like_cse_temporary', 'call_at_the_previous_point_again', 'alloc_policy_lifo', 'value_oracle_skipped_on_branch_cut'],
     rule=('one run = a seeded history (5-55 steps) on 1-3 long-lived LambdaRealDoubleVisitor / '
           'LambdaComplexDoubleVisitor objects: init with 1-4 inputs and 1-7 outputs generated over all node kinds '
           'the visitors accept (sharing between outputs so CSE has work), re-init with more/fewer outputs and the CSE '
@@ -100,7 +100,7 @@ CHECKS['C18'] = dict(
     exec_timeout=90,
     shrink_keys=['ops', 'faults'],
     expected_probes=['parse_after_failed_parse', 'parse_ok', 'parse_error', 'trunc', 'byte', 'nul', 'dup', 'del',
-                     'splice', 'paren', 'opbyte', 'swap', 'tail', 'head', 'same_input_again'],
+                     'splice', 'paren', 'opbyte', 'swap', 'tail', 'head', 'same_input_again', 'alloc_policy_lifo', 'free_function_with_constants_variant_2'],
     rule=('one run = one long-lived Parser (1 in 3 runs with local constants) and one long-lived SbmlParser fed a '
           'seeded history of 10-120 inputs: grammar-generated valid strings (numbers incl. leading zeros, exponents, '
           'long integers; identifiers incl. bytes >= 0x80; all operators, relationals, boolean operators and '
@@ -129,7 +129,7 @@ CHECKS['C19'] = dict(
     shrink_keys=['ops', 'pool', 'elems'],
     expected_probes=['address_reused_while_output_archive_alive', 'roundtrip_string_api', 'roundtrip_archive_api',
                      'matrix_roundtrip', 'doubles_compared_bitwise', 'alloc_policy_lifo', 'alloc_policy_fifo',
-                     'alloc_policy_random', 'alloc_policy_system', 'dumps_failed_half_way'],
+                     'alloc_policy_random', 'alloc_policy_system', 'dumps_failed_half_way', 'matrix_entries_with_colliding_hashes', 'load_of_torn_dump_failed'],
     rule=('one run = an expression pool of 3-16 DAG nodes over every serialisable class (numbers of every kind incl. '
           'exact double bit patterns, symbols, dummies, constants, sums, products, powers, all function classes, '
           'relationals, booleans, Piecewise, Contains, sets, Derivative, Subs) with deliberate sharing, then 2-15 '
@@ -229,7 +229,7 @@ CHECKS['C32'] = dict(
     shrink_ints=['n', 'm', 'a'],
     expected_probes=['random_numbers_drawn', 'seed_list_replayed', 'same_call_under_other_sieve_state',
                      'sieve_clear', 'sieve_set_size', 'sieve_set_clear', 'sieve_iterator_stepped',
-                     'sieve_generate_primes', 'pollard_gave_up', 'gmp_draw_forced'],
+                     'sieve_generate_primes', 'pollard_gave_up', 'gmp_draw_forced', 'multi_limb_base', 'alloc_policy_lifo'],
     rule=('one run = a seeded interleaving (8-58 steps) of calls of the number-theory functions with perturbations of '
           'the process-global sieve (clear, set_clear, set_sieve_size in {1,2,3,4,8,32}, a held iterator stepped, '
           'generate_primes); earlier calls are repeated under the new sieve state, and every call is replayed under '
@@ -267,7 +267,7 @@ CHECKS['C41'] = dict(
     recycle_runs=4,      # fresh process every 4 runs: cold function-local statics keep being explored
     shrink_keys=['threads', 'ops', 'switches', 'shared'],
     expected_probes=['context_switch_injected', 'sched_random', 'sched_pct', 'static_initialiser_contended',
-                     'dummies_created_concurrently', 'handoff_objects_released_by_workers'],
+                     'dummies_created_concurrently', 'handoff_objects_released_by_workers', 'lock_held_by_parked_thread'],
     rule=('one run = 3-8 shared expressions (sums, products, powers, elementary functions, special angles that hit '
           'the lazily built tables) built by the main thread and left untouched (hash_ == 0), then 2-4 real threads '
           'each running 3-13 operations from the property\'s list (hash, eq, __cmp__, str, diff, subs, xreplace, '
@@ -286,3 +286,38 @@ CHECKS['C41'] = dict(
                  'operations outside the property\'s list (prime sieve, Series::step_list) are not exercised concurrently',
                  'sampling, not proof'],
 )
+
+
+# additions of the third session (DESIGN.md section 9), appended to the rules above
+CHECKS['C13']['rule_more'] = ('Also: the allocator seam picks an address-reuse policy per run; one call in four repeats the '
+    'evaluator\'s previous input vector (also across a re-initialisation, sometimes with the sign of zeros flipped); some '
+    'inits have 3-6 outputs that are overlapping sums/products of a few symbols, or several Piecewise outputs guarded by '
+    'the same condition with floor/ceiling of a shared subexpression; Constant leaves may be objects of their own '
+    '(constant("pi")) instead of the library singletons; no value is judged where a subexpression lies on a branch cut.')
+CHECKS['C18']['rule_more'] = ('Also: the allocator seam picks an address-reuse policy per run; the free functions parse() and '
+    'parse_sbml() get a constant map per call (none / map A / map B with the same names and other values); one input in '
+    'twelve is a soup of tokens and bytes not derived from the grammar; literals include 1e999, 1e-999, 2^63, 2^64, 10^19; '
+    'boolean operators get operands that are not booleans (numbers, negative 20-digit integers, Piecewise). The cost '
+    'filter looks at the value of each literal (finite and above 9999 next to a special function = not run).')
+CHECKS['C19']['rule_more'] = ('Also: bursts of loads of torn copies of a valid dump (all fail) between round trips; DenseMatrix '
+    'entries k and 2^64+k (equal in everything Integer::__hash__ reads), the same twins inside FiniteSet / Mul / And / Or / '
+    'function arguments; symbol names with blanks, tabs, quotes, parentheses or nothing at all; -0.0 built directly '
+    '(RealDouble and both parts of ComplexDouble); URatPoly, PrimePi, Primorial; the small integers where value caches end.')
+CHECKS['C20']['rule_more'] = ('Also: a node header turned into a back reference to an earlier node (sharing key := earlier key, '
+    'first-seen flag := 0); an Integer node rewritten as a RealDouble node with chosen bits (0.0, -0.0, +-1, +-inf, NaN, 2); '
+    'one load in ten is of bytes that never were a dump (nothing, random bytes, a valid header followed by random bytes).')
+CHECKS['C25']['rule_more'] = ('Also: the output argument of binop / elementwise product may be an object that already holds an '
+    'earlier result of the same shape; one coordinate list in three is row- or column-major with one or two entries moved; '
+    'entry values include 0**x and 0**(x+y), which stay unevaluated and are not zero.')
+CHECKS['C32']['rule_more'] = ('Also: the allocator seam picks an address-reuse policy per run; one modulus in four is related to '
+    'that of the previous call (2m, m/2, m*p, m/p); the base of the modular functions is sometimes the multi-limb number '
+    'a + m*(2^(64j)+c); polygonal_number / principal_polygonal_root of the symbolic layer with arguments up to 2^31.')
+CHECKS['C33']['rule_more'] = ('Also: in half of the runs an allocation is made to fail inside generate_primes / next_prime / clear / '
+    'an iterator destructor (the k-th allocation of that call; std::bad_alloc is an accepted outcome, later results of every '
+    'client are judged; the event log records only that the fault was armed, because whether a k-th allocation exists '
+    'depends on the capacity the cache vector kept from earlier runs of the process); iterators are copy-assigned from '
+    'other slots and from temporaries; one run in about forty walks one iterator past 2^20 primes.')
+CHECKS['C41']['rule_more'] = ('Also: expand((x + y + ...)^n) for 2-5 terms and n <= 6; bursts of up to 69000 Dummy symbols per thread; '
+    'a correctly locked section of the harness (std::mutex with reference-count traffic inside) entered by several threads: '
+    'blocking locks are taken through non-blocking link-time wrappers and a thread spinning on one address is descheduled '
+    'after 256 yields.')
